@@ -60,6 +60,22 @@ def to_float(X):
         raise MalformedResult(f"not a numeric array: {type(X).__name__} ({type(e).__name__}: {e})"[:300]) from e
 
 
+def case_flag(A, one_in=4, salt=0):
+    """A yes/no option value derived from the case's own bytes (a pure function of the input, so replay reproduces
+    it): lets a check exercise a non-default option such as verbose=True on one case in `one_in` without changing
+    the generator."""
+    import zlib
+    return (zlib.crc32(np.ascontiguousarray(np.asarray(A, dtype=float)).tobytes()) + salt) % one_in == 0
+
+
+def quiet(fn, *a, **kw):
+    """Call library code with its print() output dropped (verbose paths, warnings printed by guards)."""
+    import contextlib
+    import io
+    with contextlib.redirect_stdout(io.StringIO()):
+        return fn(*a, **kw)
+
+
 def ahash(x):
     """Byte hash of an argument (dense ndarray of any dtype, or a sparse quaternion matrix)."""
     load()
